@@ -349,7 +349,7 @@ func (w *World) atomsInto(fi *FuncInfo, fd *funcDefs, e ast.Expr, a *Atoms, seen
 			// a new function: looked through (results; parameters are bound to call-site
 			// arguments when reached), not recorded as a call
 			w.atomsOfNewCall(w.Funcs[name], -1, a, depth)
-		} else if tgt := w.Funcs[name]; w.deep.on && tgt != nil && tgt.Decl.Body != nil && !w.deep.busy[name] && w.deep.depth < 2 {
+		} else if tgt := w.Funcs[name]; w.deep.on && tgt != nil && tgt.Decl.Body != nil && isPredicateFn(tgt) && !w.deep.busy[name] && w.deep.depth < 2 {
 			// deep mode (decision fingerprints): what a gleece predicate returns and what it
 			// branches on are what the caller decides on; the predicate's own name and shape
 			// do not matter
@@ -571,13 +571,25 @@ type deepState struct {
 	busy  map[string]bool
 }
 
-// exprAtomsDeep: the atoms of e with every gleece function it calls looked through (two
-// levels): the fingerprint of a decision, independent of how its predicates are factored.
+// exprAtomsDeep: the atoms of e with the gleece predicates (functions whose only result is
+// a bool) it calls looked through, two levels: the fingerprint of a decision, independent
+// of how its predicates are factored. Other callees stay opaque - what they compute is
+// the business of the rules about them.
 func (w *World) exprAtomsDeep(fi *FuncInfo, e ast.Expr) *Atoms {
 	prev := w.deep
 	w.deep = deepState{on: true, busy: map[string]bool{}}
 	defer func() { w.deep = prev }()
 	return w.exprAtoms(fi, e)
+}
+
+// isPredicateFn: the function answers one yes/no question (its only result is a bool).
+func isPredicateFn(fi *FuncInfo) bool {
+	res := fi.Obj.Type().(*types.Signature).Results()
+	if res.Len() != 1 {
+		return false
+	}
+	b, ok := res.At(0).Type().Underlying().(*types.Basic)
+	return ok && b.Kind() == types.Bool
 }
 
 // branchConds: the conditions a function branches on (if, for, switch tags and case values).
